@@ -273,10 +273,13 @@ def sourceShapeC09 : Bool :=
   Src.rtRunWithCodeBlocksOnOneshot && Src.rtStopSendsExit && Src.rtThreadLocalsBeforeRegister &&
   Src.rtRegisterBeforeReady && Src.rtReadyBeforeRun && Src.rtDeregisterAfterRun && Src.rtNewWaitsForReady &&
   Src.rtRunnerStopEnds && Src.rtHandleStopSends && Src.rtJoinJoinsThread &&
-  Src.rtSysArbRegisteredFirst && Src.rtDeregisterOwnId && Src.rtRegisterOwnId
+  Src.rtSysArbRegisteredFirst && Src.rtDeregisterOwnId && Src.rtRegisterOwnId &&
+  Src.rtRegisterOnlyInserts && Src.rtDeregisterOnlyRemoves
 
 /-- `runner` rule: `Stop` ends the loop, `Execute` is `spawn_local`ed (started later, by `task`), a
-closed channel ends it; `send` rule: `spawn`/`spawn_fn`/`stop` are one `tx.send(..).is_ok()`. -/
+closed channel ends it; `send` rule: `spawn`/`spawn_fn`/`stop` are one `tx.send(..).is_ok()` *and
+nothing else* (`…OnlySends`: whoever sends — another thread or a task on the arbiter itself — the
+command goes through the channel). -/
 def sourceShapeC10 : Bool :=
   Src.rtRunnerLoopsUntilPending && Src.rtRunnerClosedEnds && Src.rtRunnerStopEnds &&
   Src.rtRunnerExecuteSpawnsLocal && Src.rtHandleSpawnSends && Src.rtHandleSpawnFnIsSpawn &&
@@ -284,6 +287,8 @@ def sourceShapeC10 : Bool :=
   Src.rtThreadLocalsBeforeRegister && Src.rtReadyBeforeRun && Src.rtDeregisterAfterRun &&
   Src.rtInNewSystemSetsHandle && Src.rtInNewSystemSpawnsRunner && Src.rtConstructSetsCurrent &&
   Src.rtSetCurrentOverwrites && Src.rtArbThreadSetsHandle && Src.rtCurrentReadsHandle &&
-  Src.rtSysArbRegisteredFirst
+  Src.rtSysArbRegisteredFirst &&
+  Src.rtHandleSpawnOnlySends && Src.rtHandleSpawnFnOnlySpawn && Src.rtHandleStopOnlySends &&
+  Src.rtArbiterSpawnOnlySends && Src.rtArbiterSpawnFnOnlySpawn && Src.rtArbiterStopOnlySends
 
 end ActixNet.Rt
